@@ -1533,6 +1533,10 @@ int ov_pcm_seek_page(OggVorbis_File *vf,ogg_int64_t pos){
         if(result==OV_EREAD) goto seek_error;
         if(result<0){
           /* there is no next page! */
+          /* the failed search has read into (and possibly moved or
+             reallocated) the sync buffer: a page fetched earlier is no
+             longer held in og */
+          og_offset=-1;
           if(bisect<=begin+1)
               /* No bisection left to perform.  We've either found the
                  best candidate already or failed. Exit loop. */
@@ -1618,7 +1622,8 @@ int ov_pcm_seek_page(OggVorbis_File *vf,ogg_int64_t pos){
 
       if(got_page &&
          begin == vf->dataoffsets[link] &&
-         ogg_page_serialno(&og)==vf->serialnos[link]){
+         (og_offset==-1 ||
+          ogg_page_serialno(&og)==vf->serialnos[link])){
 
         /* Yes, this is the beginning-of-stream case. */
 
